@@ -933,8 +933,8 @@ func (hv *Hash) Reflect(c px.Context) reflect.Value {
 	for _, e := range hv.entries {
 		var rv reflect.Value
 		if e.value == undef && isNilAndUnknown(valueType) {
-			// Putting nil into map causes reflect.SetMapIndex to delete the entry.
-			rv = reflect.ValueOf(undef)
+			// The invalid Value causes reflect.SetMapIndex to delete the entry, a nil interface does not.
+			rv = reflect.Zero(valueType)
 		} else {
 			rv = rf.Reflect2(e.value, valueType)
 		}
@@ -962,8 +962,8 @@ func (hv *Hash) ReflectTo(c px.Context, value reflect.Value) {
 	for _, e := range hv.entries {
 		var rv reflect.Value
 		if e.value == undef && isNilAndUnknown(valueType) {
-			// Putting nil into map causes reflect.SetMapIndex to delete the entry.
-			rv = reflect.ValueOf(undef)
+			// The invalid Value causes reflect.SetMapIndex to delete the entry, a nil interface does not.
+			rv = reflect.Zero(valueType)
 		} else {
 			rv = rf.Reflect2(e.value, valueType)
 		}
